@@ -7,6 +7,7 @@ from .. import bootstrap, exprs, gen, interp, model
 from ..common import exc_str, short
 from ..dbx import DB, BuildFailure, Builder, make_engines, opt_kwargs
 from ..fingerprint import fingerprint
+from ..monitors import structure
 from ..tags import KEYS, T
 from . import c03
 
@@ -31,6 +32,7 @@ RULE = (
     "issued through explicit Join(min_columns/max_columns) objects and Join.partial(is_lhs); a predicate object "
     "already used in a well-formed request is re-used in an ill-formed one. "
     "  In 40 % of the missing-column edits two columns are missing at once (the tags are hashable but not orderable). "
+    "  35 % of the unsupported-expression edits restrict the function to the OTHER engine kind: such a request must raise EngineError or return a tree in which the expression sits in an engine that supports it. "
 )
 ASSUMPTIONS = [
     "expected exception class per edit kind follows the Raises sections of the Relation factory docstrings",
@@ -103,6 +105,7 @@ def run_case(case):
                     continue  # every tag is taken: these edits cannot be formed on this target
                 combos = all_combos if case["all_options"] else [None] + rng.sample(all_combos[1:], 4)
                 expected = R.ColumnError
+                relaxed = False
                 calls = []
                 mref = ["ref", missing]
                 # 40 %: TWO columns are missing at once (tags need not be orderable or otherwise
@@ -165,8 +168,15 @@ def run_case(case):
                     if not cols:
                         continue
                     expected = R.EngineError
-                    bad_e = ["rfn", "neg", [["ref", some]], none_supported]
-                    bad_p = ["rcmp", "lt", ["ref", some], ["lit", 1], none_supported]
+                    restr = none_supported
+                    if rng.random() < 0.35:
+                        # supported by the OTHER engine kind only: the request is ill-formed wherever the
+                        # operation would end up in this relation's engine; it may legitimately succeed
+                        # where the options move it into an engine of the supporting kind
+                        restr = ["sql"] if isinstance(rel.engine, iteration.Engine) else ["it"]
+                        relaxed = True
+                    bad_e = ["rfn", "neg", [["ref", some]], restr]
+                    bad_p = ["rcmp", "lt", ["ref", some], ["lit", 1], restr]
                     nest = rng.random()
                     if nest < 0.35:
                         # the unsupported call is an argument of a function that itself declares
@@ -260,7 +270,16 @@ def run_case(case):
                         out["violations"].append({"kind": f"wrong_exception_class:{edit}", "detail": f"{what}: raised {exc_str(exc)}, documented {expected}"})
                     else:
                         outcome = "accepted"
-                        out["violations"].append({"kind": f"ill_formed_request_accepted:{edit}", "detail": f"{what}: returned {short(res, 300)}"})
+                        if relaxed:
+                            # acceptable only if the expression ended up in an engine that supports it
+                            bad = [d for k, d in structure.check_c14(res) if "support" in k]
+                            if bad:
+                                out["violations"].append({"kind": f"ill_formed_request_accepted:{edit}", "detail": f"{what}: returned {short(res, 300)}, in which {bad[0]}"})
+                            else:
+                                outcome = "moved"
+                                c["restricted_requests_served_in_supporting_engine"] = c.get("restricted_requests_served_in_supporting_engine", 0) + 1
+                        else:
+                            out["violations"].append({"kind": f"ill_formed_request_accepted:{edit}", "detail": f"{what}: returned {short(res, 300)}"})
                     if sub[0] != "leaf":
                         o = opt or {}
                         out["sigs"].append(f"{edit}:{o.get('pe')}{int(bool(o.get('bt', True)))}{int(bool(o.get('tr', False)))}{int(bool(o.get('rq', False)))}:{eng_name}:{tail}:{outcome}")
